@@ -6,7 +6,7 @@ import itertools
 import random
 from typing import Callable, Dict, Iterable, List, Optional, Sequence, Tuple
 
-from .gram import ActSpec, B, C, Grammar, N, P, Ref, T, X
+from .gram import ActSpec, B, C, Grammar, N, P, Ref, T, X, STATE, FAM
 
 A_, B_, C_ = 97, 98, 99   # 'a' 'b' 'c'
 
@@ -83,6 +83,9 @@ def kinds(core_only: bool = False, raisers: bool = True):
         ('pad_opt', 2, lambda x, y: P('pad_opt', x, y), 'conv'),
         ('enable', 1, lambda x: P('enable', x), 'conv'),
         ('disable', 1, lambda x: P('disable', x), 'conv'),
+        ('state_c', 1, lambda x: P('state', STATE(0), x), 'state'),
+        ('state_d', 1, lambda x: P('state', STATE(1), x), 'state'),
+        ('state_c2', 2, lambda x, y: P('state', STATE(0), x, y), 'state'),
     ]
     for n in range(0, 4):
         ks.append((f'rep{n}', 1, (lambda n: lambda x: P('rep', N(n), x))(n), 'rep'))
@@ -128,6 +131,8 @@ def contexts(raisers: bool = True):
         ('in-not_at', lambda k: P('not_at', k)),
         ('in-opt', lambda k: P('opt', k, P('one', C(C_)))),
         ('in-disable', lambda k: P('disable', k)),
+        ('in-state', lambda k: P('state', STATE(0), k)),
+        ('in-state-at', lambda k: P('at', P('state', STATE(1), k))),
     ]
     if raisers:
         cs += [
@@ -218,7 +223,9 @@ class RandGen:
     a reference to a rule with a smaller-or-equal index is only generated behind a consuming atom,
     and repetition bodies are forced to consume."""
 
-    def __init__(self, rng: random.Random, core_only: bool, raisers: bool, n_rules: int, alphabet=(A_, B_, C_), eol_atoms: bool = False):
+    def __init__(self, rng: random.Random, core_only: bool, raisers: bool, n_rules: int, alphabet=(A_, B_, C_), eol_atoms: bool = False,
+                 switches: bool = False):
+        self.switches = switches
         self.rng = rng
         self.core_only = core_only
         self.raisers = raisers
@@ -264,6 +271,8 @@ class RandGen:
             if self.raisers:
                 ops += ['must', 'if_must', 'opt_must', 'try_catch_return_false', 'try_catch_raise_nested', 'star_must',
                         'if_must_else', 'list_must']
+        if self.switches:
+            ops += ['state', 'state', 'state', 'enable', 'disable']
         if consuming:
             ops = [o for o in ops if o not in ('until', 'star', 'opt', 'at', 'not_at', 'rep_opt', 'strict', 'partial', 'star_partial',
                                                'star_strict', 'opt_must', 'star_must', 'pad_opt')]
@@ -336,6 +345,10 @@ class RandGen:
             return P('star_must', E(True, guarded), E(False, True))
         if op in ('try_catch_return_false', 'try_catch_raise_nested'):
             return P(op, E(consuming, guarded))
+        if op == 'state':
+            return P('state', STATE(r.random() < 0.4), E(consuming, guarded))
+        if op in ('enable', 'disable'):
+            return P(op, E(consuming, guarded))
         raise ValueError(op)
 
     def grammar(self, gid: str) -> Tuple[Grammar, List[int]]:
@@ -357,7 +370,9 @@ def attach_actions(rng: random.Random, g: Grammar, mode: str):
     g.fams.clear()
     if mode == 'none':
         return
-    if mode == 'switch':
+    if mode in ('switch', 'states'):
+        st = (mode == 'states')
+
         def pick():
             kind = rng.choice(['apply', 'apply0'])
             if rng.random() < 0.4:
@@ -375,6 +390,10 @@ def attach_actions(rng: random.Random, g: Grammar, mode: str):
                 a.wrap = 'ea'
             elif q < 0.34:
                 a.wrap = 'ca:1'
+            elif st and q < 0.5:
+                a.wrap = f"cs:{rng.randint(0, 1)}"
+            elif st and q < 0.62:
+                a.wrap = f"cas:1:{rng.randint(0, 1)}"
             if a.kind != 'none' or a.wrap != 'none':
                 g.acts[nid] = a
             b = pick() if rng.random() < 0.55 else ActSpec()
@@ -385,6 +404,12 @@ def attach_actions(rng: random.Random, g: Grammar, mode: str):
                 b.wrap = 'da'
             elif q < 0.26:
                 b.wrap = 'ea'
+            elif st and q < 0.4:
+                b.wrap = f"cs:{rng.randint(0, 1)}"
+            elif st and q < 0.48:
+                b.wrap = f"cas:0:{rng.randint(0, 1)}"
+            if (a.wrap.startswith('ca:') or a.wrap.startswith('cas:')) and (b.wrap.startswith('ca:') or b.wrap.startswith('cas:')):
+                b.wrap = 'none'     # family 0 -> 1 -> 0 on the same rule would recurse for ever (in C++ as in the model)
             if b.kind != 'none' or b.wrap != 'none':
                 fam1[nid] = b
         g.fams[1] = fam1
